@@ -133,7 +133,8 @@ def classify(bad, texts, wd):
             # a '$' / '$$' that stands alone as an identifier, also directly after a control operator name ('.eq$ x' read as '.eq $ x')
             # also a number directly followed by '$' + non-letter: "2$3" is the two entries "2" and "$3"
             if re.search(r"(?<![\w@.$-])\${1,2}(?![A-Za-z_@$])", body) or re.search(r"\.[A-Za-z][A-Za-z0-9-]*\${1,2}(?![A-Za-z_@$])", body) \
-                    or re.search(r"(?<![A-Za-z_@.$-])[0-9][0-9A-Fa-fxXbB.]*\${1,2}(?![A-Za-z_@$])", body):
+                    or re.search(r"(?<![A-Za-z_@.$-])[0-9][0-9A-Fa-fxXbB.]*\${1,2}(?![A-Za-z_@$])", body) \
+                    or re.search(r"\.\.\.?\${1,2}(?![A-Za-z_@$])", body):          # directly after a range operator: '...$ x' 
                 known[i] = "C03-bare-dollar-identifier"
     for i, v in bad:
         if i not in known and v == "bad:rejected-derivable":
